@@ -1134,9 +1134,10 @@ impl Formatter {
             return;
         }
         self.format_pattern(&arm.pattern.node);
-        self.writer.write(" => ");
+        self.writer.write(" =>");
         match &arm.body {
             MatchBody::Expr(expr) => {
+                self.writer.write(" ");
                 self.format_expr(&expr.node);
                 self.writer.newline();
             }
